@@ -272,6 +272,19 @@ M("C07", "twin-rename-source", GE, "        rand: RandomSource = ListWrapper(gen
 M("C07", "twin-stack-local-wrapper", STK, "return create_tree_using_stacks(self.grammar, ListWrapper(genotype.dna), failures_limit=self.failures_limit)",
   "wrapper = ListWrapper(genotype.dna)\n        return create_tree_using_stacks(self.grammar, wrapper, failures_limit=self.failures_limit)", "", expect="silent")
 
+M("C07", "dsge-get-returns-drawn-not-stored", DSGE, "            nvalue = self.random.randint(0, MAX_GENE_VALUE)\n            self.dna[ty].append(nvalue)\n        return self.dna[ty][n]",
+  "            nvalue = self.random.randint(0, MAX_GENE_VALUE)\n            if len(self.dna[ty]) < n:\n                self.dna[ty].append(nvalue)\n            else:\n                return nvalue\n        return self.dna[ty][n]", "C07.R3")
+M("C07", "dsge-get-extends-a-copy", DSGE, "        while len(self.dna[ty]) <= n:\n            nvalue = self.random.randint(0, MAX_GENE_VALUE)\n            self.dna[ty].append(nvalue)\n        return self.dna[ty][n]",
+  "        codons = list(self.dna[ty])\n        while len(codons) <= n:\n            codons.append(self.random.randint(0, MAX_GENE_VALUE))\n        return codons[n]", "C07.R3")
+M("C07", "dsge-get-overwrites-position", DSGE, "        return self.dna[ty][n]\n\n\nclass DynamicSGEDecider", "        self.dna[ty][0] = self.dna[ty][n]\n        return self.dna[ty][n]\n\n\nclass DynamicSGEDecider", "C07.R3")
+M("C07", "dsge-decider-inherits-stream-float", DSGE, "        self.genotype = genotype\n        self.grammar = grammar\n",
+  "        self.genotype = genotype\n        self.random = genotype.random\n        self.grammar = grammar\n", "C07.R1",
+  extra=[(DSGE, "        v = self.read(float)\n        return v % (max_float - min_float) + min_float", "        return self.random.random_float(min_float, max_float)")])
+M("C07", "twin-dsge-get-local-list", DSGE, "        while len(self.dna[ty]) <= n:\n            nvalue = self.random.randint(0, MAX_GENE_VALUE)\n            self.dna[ty].append(nvalue)\n        return self.dna[ty][n]",
+  "        codons = self.dna[ty]\n        while len(codons) <= n:\n            codons.append(self.random.randint(0, MAX_GENE_VALUE))\n        return codons[n]", "", expect="silent")
+M("C07", "twin-dsge-get-setdefault", DSGE, "        if ty not in self.dna:\n            self.dna[ty] = []\n        while len(self.dna[ty]) <= n:\n            nvalue = self.random.randint(0, MAX_GENE_VALUE)\n            self.dna[ty].append(nvalue)\n        return self.dna[ty][n]",
+  "        codons = self.dna.setdefault(ty, [])\n        missing = n + 1 - len(codons)\n        for _ in range(max(0, missing)):\n            codons.append(self.random.randint(0, MAX_GENE_VALUE))\n        return codons[n]", "", expect="silent")
+
 # ------------------------------------------------------------------------------------- C08
 M("C08", "dsge-crossover-key-union", DSGE, "        keys = parent1.dna.keys()\n\n        mask", "        keys = parent1.dna.keys() | parent2.dna.keys()\n\n        mask", "C08.R1")
 M("C08", "grammar-first-terminal", GRM, "    def get_min_tree_depth(self):", "    def any_terminal(self):\n        return next(iter(self.terminals))\n\n    def get_min_tree_depth(self):", "C08.R1")
@@ -306,6 +319,14 @@ M("C11", "fold-stores-other-than-returned", TU, "    i.gengy_nodes = number_of_n
 M("C11", "twin-fold-sum-comprehension", TU, "            weighted_number_of_nodes += weighted_nodes\n", "            weighted_number_of_nodes = weighted_number_of_nodes + weighted_nodes\n", "", expect="silent")
 M("C11", "twin-relabel-kw-flag", TU, "                c,\n                g,\n                isinstance(c, list),\n            )", "                c,\n                g,\n                is_list=isinstance(c, list),\n            )", "", expect="silent")
 M("C11", "twin-index-extend-copy", TU, "                types_this_way[k].extend(v)", "                types_this_way[k].extend(list(v))", "", expect="silent")
+
+M("C05", "update-weights-drops-depth-mode", GRM, "        self.__init__(starting_symbol, nodes, self.expansion_depthing)\n", "        self.__init__(starting_symbol, nodes)\n", "C05.R4")
+M("C05", "update-weights-drops-subtypes", GRM, "        self.__init__(starting_symbol, nodes, self.expansion_depthing)\n", "        self.__init__(starting_symbol, expansion_depthing=self.expansion_depthing)\n", "C05.R4")
+M("C05", "twin-update-weights-keyword-reinit", GRM, "        self.__init__(starting_symbol, nodes, self.expansion_depthing)\n",
+  "        mode = self.expansion_depthing\n        self.__init__(starting_symbol, considered_subtypes=nodes, expansion_depthing=mode)\n", "", expect="silent")
+M("C05", "usable-grammar-dataclass-before-alternatives", GRM, "            if c in self.alternatives:\n                for k in self.alternatives[c]:\n                    add(k)\n            elif is_dataclass(c):",
+  "            if is_dataclass(c) and c not in [bool, int, str, float, list, tuple]:\n                for _, k in get_arguments(c):\n                    add(strip_annotations(k))\n            elif c in self.alternatives:\n                for k in self.alternatives[c]:\n                    add(k)\n            elif is_dataclass(c):", "C05.R1")
+M("C05", "reachability-through-strip-annotations", GRM, "            for prod in explode_generics(dsts):", "            for prod in map(strip_annotations, dsts):", "C05.R1")
 
 # ------------------------------------------------------------------------------------- C06
 M("C06", "ge-crossover-wrong-halves", GE, "        c2 = parent2.dna[:rindex] + parent1.dna[rindex:]", "        c2 = parent1.dna[rindex:] + parent2.dna[:rindex]", "C06.R1")
